@@ -7,6 +7,8 @@ extern crate alloc;
 pub mod model;
 #[cfg(kani)]
 #[macro_use]
+pub mod macros_only;
+#[cfg(kani)]
 pub mod util;
 #[cfg(kani)]
 pub mod gen;
